@@ -37,7 +37,8 @@ fn finite_f64() -> impl Strategy<Value = u64> {
 pub fn eco_state() -> impl Strategy<Value = EcoState> {
     (
         any::<[bool; 8]>(),
-        any::<[u32; 11]>(),
+        // (counts are also drawn from the small range in which the name list lives: a reported count below, at and above the number of listed names)
+        prop::array::uniform11(prop_oneof![3 => crate::util::num::<u32>(), 2 => 0u32 .. 120]),
         [finite_f64(), finite_f64(), finite_f64(), finite_f64()],
         // mostly short strings; sometimes long ones (descriptions run to kilobytes)
         prop_oneof![5 => prop::collection::vec(text(ANY, 30), 15), 1 => prop::collection::vec(prop_oneof![3 => text(ANY, 30).boxed(), 1 => "\\PC{800,3000}".boxed()], 15)],
